@@ -19,7 +19,7 @@ from lib import driver as D
 # "d" of their own - the day of a date - so the depth is read at its place, never searched for)
 END_OF_BLOCK = re.compile(r'^\{"cls":"[A-Z]","d":1,')
 CHUNK = 40000          # events per TLC run, cut at evaluation-block boundaries
-TWINS = {"C06": "andFalseNeedsBoth", "C05": "intDecimalNoPromote", "C08": "addIsSub", "C14": "byteLength", "C13": "toIntegerAcceptsDecimalString"}
+TWINS = {"C06": "andFalseNeedsBoth", "C05": "intDecimalNoPromote", "C08": "addIsSub", "C14": "byteLength", "C13": "toIntegerAcceptsDecimalString", "C09": "weekIs5Days"}
 # value laws (eqval/cmpval C05, arith C08, strfn C14): the node whose logged outcome the binding probe corrupts
 VALUE_PROBE = {"C05": ("Equality", "eqval"), "C08": ("Arithmetic", "arith"), "C14": ("Function", "strfn"), "C13": ("Function", "convfn")}
 
